@@ -36,7 +36,7 @@ macro_rules! impl_entry_num { ($($t:ty),*) => { $(impl Entry for $t {
     type Base = $t;
     fn terms(&self) -> Vec<(usize, usize, $t)> { if Zero::is_zero(self) { vec![] } else { vec![(0, 0, self.clone())] } }
 })* } }
-impl_entry_num!(i64, BigInt, Ratio<i64>, FF2, FF<3>);
+impl_entry_num!(i64, BigInt, Ratio<i64>, Ratio<BigInt>, FF2, FF<3>);
 
 impl<S> Entry for Poly<'H', S> where S: Ring, for<'x> &'x S: RingOps<S> {
     type Base = S;
@@ -1162,7 +1162,7 @@ mod structural {
 pub struct Plan { pub cap: usize, pub with_ref: bool, pub malformed: bool }
 
 // one copy of the engine stream per coefficient ring (`TngComplex<R>` for R = i64, Ratio<i64>, FF2, FF<3>)
-macro_rules! engine_mod { ($name:ident, $R:ty, $tag:expr, $from:expr, $tor:expr) => {
+macro_rules! engine_mod { ($name:ident, $R:ty, $tag:expr, $from:expr, $tor:expr, $hasbig:expr, $bigrun:expr) => {
 mod $name {
     use super::*;
     use super::structural::{dots_of, t_txt};
@@ -1175,6 +1175,7 @@ mod $name {
     pub type Rg = $R;
     type C = TngComplex<Rg>;
     pub const TAG: &str = $tag;
+    const HAS_BIG: bool = $hasbig;
     pub fn of(x: i64) -> Rg { ($from)(x) }
     fn tor(x: &Rg) -> BigInt { ($tor)(x) }
     const TEXT_LIMIT: usize = 1200;
@@ -1281,18 +1282,32 @@ mod $name {
         pub dead: bool,           // an unexpected panic left a slot in an unknown state: the script stops
         pub ht: (Rg, Rg),
         pub greedy_above: usize,
+        /// request / reply lines and counters of this script; written to the sink when the run is dropped — unless
+        /// the script is repeated in arbitrary precision (`discard`)
+        pub lines: Vec<(String, String, bool)>,
+        pub cnts: Vec<String>,
+        pub panicked: bool,       // a step that was expected to succeed panicked
+        pub discard: bool,
+    }
+    impl<'a> Drop for Run<'a> {
+        fn drop(&mut self) {
+            if self.discard { return }
+            for (req, reply, nt) in self.lines.drain(..) { self.s.case(&req, &reply, nt); }
+            for c in self.cnts.drain(..) { self.s.count(&c); }
+        }
     }
     impl<'a> Run<'a> {
         pub fn new(s: &'a mut Sink, ht: (Rg, Rg)) -> Self {
-            s.case(&format!("eg new {}", TAG), "ok", false);
-            s.count(&format!("eng.ring.{}", TAG));
-            Run { s, slots: BTreeMap::new(), steps: 0, dead: false, ht, greedy_above: 24 }
+            Run { s, slots: BTreeMap::new(), steps: 0, dead: false, ht, greedy_above: 24,
+                  lines: vec![(format!("eg new {}", TAG), "ok".to_string(), false)], cnts: vec![format!("eng.ring.{}", TAG)],
+                  panicked: false, discard: false }
         }
+        pub fn cnt(&mut self, c: &str) { self.cnts.push(c.to_string()); }
         fn emit(&mut self, kind: &str, req: String, reply: String) {
             self.steps += 1;
-            self.s.count(&format!("eng.step.{}", kind));
-            if reply == "panic" { self.s.count(&format!("eng.panic.{}", kind)); }
-            self.s.case(&req, &reply, true);
+            self.cnt(&format!("eng.step.{}", kind));
+            if reply == "panic" { self.cnt(&format!("eng.panic.{}", kind)); }
+            self.lines.push((req, reply, true));
         }
         pub fn init(&mut self, i: usize, sh: (isize, isize), bp: Option<usize>) {
             let c = C::init(&self.ht.0, &self.ht.1, sh, bp);
@@ -1304,31 +1319,31 @@ mod $name {
             let e = x.edges();
             let req = format!("eg app {} {} {} {} {} {}", i, ct_txt(x), e[0], e[1], e[2], e[3]);
             let c = self.slots.get_mut(&i).unwrap();
-            let reply = match guard(|| c.append(x)) { Some(_) => dump(c), None => { self.dead = true; "panic".into() } };
+            let reply = match guard(|| c.append(x)) { Some(_) => dump(c), None => { self.dead = true; self.panicked = true; "panic".into() } };
             self.emit("app", req, reply);
         }
         pub fn con(&mut self, i: usize, j: usize, expect_panic: bool) {
             let other = self.slots.remove(&j).unwrap();
             let c = self.slots.get_mut(&i).unwrap();
-            let reply = match guard(|| c.connect(other)) { Some(_) => dump(c), None => { if !expect_panic { self.dead = true; } "panic".into() } };
+            let reply = match guard(|| c.connect(other)) { Some(_) => dump(c), None => { if !expect_panic { self.dead = true; self.panicked = true; } "panic".into() } };
             self.emit("con", format!("eg con {} {}", i, j), reply);
         }
         pub fn dl(&mut self, i: usize, k: &TngKey, r: usize, expect_panic: bool) {
             let c = self.slots.get_mut(&i).unwrap();
             let reply = match guard(|| c.deloop(k, r)) {
                 Some(upd) => format!("upd={} {}", upd.iter().map(key_txt).collect::<Vec<_>>().join(","), dump(c)),
-                None => { if !expect_panic { self.dead = true; } "panic".into() }
+                None => { if !expect_panic { self.dead = true; self.panicked = true; } "panic".into() }
             };
             self.emit(if expect_panic { "dl-bad" } else { "dl" }, format!("eg dl {} {} {}", i, key_txt(k), r), reply);
         }
         pub fn el(&mut self, i: usize, k0: &TngKey, k1: &TngKey, expect_panic: bool) {
             // coverage: does this step stack a "tube" (see `tube_factor`)?
             if !expect_panic && tube_factor(&self.slots[&i], k0, k1) {
-                self.s.count("eng.el.stacks-tube(connected surface over the same arcs on both ends)");
+                self.cnt("eng.el.stacks-tube(connected surface over the same arcs on both ends)");
                 if std::env::var("C05_TRACE_TUBE").is_ok() { eprintln!("TUBE ring={} step={} el {} {}", TAG, self.steps, key_txt(k0), key_txt(k1)); }
             }
             let c = self.slots.get_mut(&i).unwrap();
-            let reply = match guard(|| c.eliminate(k0, k1)) { Some(_) => dump(c), None => { if !expect_panic { self.dead = true; } "panic".into() } };
+            let reply = match guard(|| c.eliminate(k0, k1)) { Some(_) => dump(c), None => { if !expect_panic { self.dead = true; self.panicked = true; } "panic".into() } };
             self.emit(if expect_panic { "el-bad" } else { "el" }, format!("eg el {} {} {}", i, key_txt(k0), key_txt(k1)), reply);
         }
         pub fn query(&mut self, i: usize) {
@@ -1362,7 +1377,7 @@ mod $name {
                     let base = format!("gens={} mat={} ref={}", gens, plain, r);
                     if bg { format!("{} bmat={} bref={}", base, big, if with_ref { big.clone() } else { "-".to_string() }) } else { base }
                 }
-                None => "panic".into(),
+                None => { self.panicked = true; "panic".into() }
             };
             self.emit("fin", req, reply);
         }
@@ -1387,7 +1402,7 @@ mod $name {
                 let big = c.nverts() > cap;
                 if !all && !big && r.chance(1, 7) { return }
                 // a large complex is first shrunk by eliminations
-                if nedges(c) > 2500 || c.nverts() > 400 { self.dead = true; self.s.count("eng.abandoned(too big)"); return }
+                if nedges(c) > 2500 || c.nverts() > 400 { self.dead = true; self.cnt("eng.abandoned(too big)"); return }
                 let pick_el = !ps.is_empty() && (ls.is_empty() || (big && r.chance(3, 4)) || r.chance(1, 2));
                 if pick_el { let (k, l) = self.pick_pivot(r, i, &ps); self.el(i, &k, &l, false); }
                 else { let (k, q) = *r.pick(&ls); self.dl(i, &k, q, false); }
@@ -1433,7 +1448,21 @@ mod $name {
     pub use super::Plan;
 
     /// one explicit script for one diagram
+    /// one explicit script for one diagram.  A ℤ / ℚ script in which a step that should succeed panics in fixed width
+    /// (checked `i64` overflow of a coefficient, numerator or denominator) is REPEATED from its first step in
+    /// arbitrary precision (`BigInt` / `Ratio<BigInt>`): the same generator state gives the same explicit steps as long
+    /// as the states agree, and only a panic or a different state in arbitrary precision is a disagreement.
     pub fn script(s: &mut Sink, r: &mut Rng, name: &str, link: &Link, ht: (Rg, Rg), red: bool, plan: &Plan) {
+        let r0 = r.clone();
+        if script_once(s, r, name, link, ht.clone(), red, plan) {
+            *r = r0;
+            s.count("eng.machine-overflow.repeated-in-arbitrary-precision");
+            ($bigrun)(s, r, name, link, &ht, red, plan);
+        }
+    }
+
+    /// returns `true` when the script has to be repeated in arbitrary precision (nothing was written to the sink)
+    fn script_once(s: &mut Sink, r: &mut Rng, name: &str, link: &Link, ht: (Rg, Rg), red: bool, plan: &Plan) -> bool {
         let data = link.data().clone();
         let n = data.len();
         let mut order: Vec<usize> = (0..n).collect();
@@ -1442,11 +1471,10 @@ mod $name {
         let base = if red { link.first_edge() } else { None };
         let split = n >= 2 && r.chance(1, 3);
         let desc = format!("engine script {} ring={} (h,t)=({},{}) reduced={} order={:?} split={} link: {}", name, TAG, ht.0.txt(), ht.1.txt(), red, order, split, link_txt(link));
-        s.count(&format!("eng.crossings.{}", n));
-        s.count(&format!("eng.ht.{}.{},{}", TAG, ht.0.txt(), ht.1.txt()));
-        s.count(if red { "eng.reduced" } else { "eng.unreduced" });
-        s.count(if split { "eng.split" } else { "eng.single" });
+        let head_counts = vec![format!("eng.crossings.{}", n), format!("eng.ht.{}.{},{}", TAG, ht.0.txt(), ht.1.txt()),
+            (if red { "eng.reduced" } else { "eng.unreduced" }).to_string(), (if split { "eng.split" } else { "eng.single" }).to_string()];
         let mut run = Run::new(s, ht);
+        for c in &head_counts { run.cnt(c); }
         run.greedy_above = if n >= 8 { 8 } else { plan.cap / 2 };
         let parts: Vec<Vec<usize>> = if split { let cut = 1 + r.below(n as u64 - 1) as usize; vec![order[..cut].to_vec(), order[cut..].to_vec()] } else { vec![order.clone()] };
         let a = if split { (r.range(-2, 2) as isize, r.range(-3, 3) as isize) } else { total };
@@ -1488,7 +1516,7 @@ mod $name {
                 if ls.is_empty() { break }
                 let big = run.nverts(0) > plan.cap;
                 let ps = if big || run.nverts(0) > run.greedy_above || r.chance(1, 3) { pivots(&run.slots[&0]) } else { vec![] };
-                if nedges(&run.slots[&0]) > 2500 || run.nverts(0) > 400 { run.dead = true; run.s.count("eng.abandoned(too big)"); break }
+                if nedges(&run.slots[&0]) > 2500 || run.nverts(0) > 400 { run.dead = true; run.cnt("eng.abandoned(too big)"); break }
                 if !ps.is_empty() { let (k, l) = run.pick_pivot(r, 0, &ps); run.el(0, &k, &l, false); }
                 else { let (k, q) = *r.pick(&ls); run.dl(0, &k, q, false); }
             }
@@ -1500,14 +1528,16 @@ mod $name {
                 if ls.is_empty() { break }
                 let (k, q) = *r.pick(&ls);
                 run.dl(0, &k, q, false);
-                run.s.count("eng.step.dl-based");
+                run.cnt("eng.step.dl-based");
             }
             if !run.dead && r.chance(4, 5) { let all = r.chance(3, 4); run.simplify(r, 0, all, plan.cap); }
         }
         if !run.dead { run.fin(0, red, link, plan.with_ref, &desc); }
         let steps = run.steps;
-        s.count(&format!("eng.script-steps.{}", match steps { 0..=9 => "0-9", 10..=39 => "10-39", 40..=159 => "40-159", _ => "160+" }));
-        s.count("eng.scripts");
+        run.cnt(&format!("eng.script-steps.{}", match steps { 0..=9 => "0-9", 10..=39 => "10-39", 40..=159 => "40-159", _ => "160+" }));
+        run.cnt("eng.scripts");
+        if run.panicked && HAS_BIG { run.discard = true; return true }
+        false
     }
 
     fn key_of(t: &str) -> TngKey {
@@ -1543,7 +1573,7 @@ mod $name {
         if run.dead { return }
         let (k0, k1) = (key_of("0010."), key_of("0110.X"));
         let hit = run.slots[&0].contains_key(&k0) && tube_factor(&run.slots[&0], &k0, &k1);
-        run.s.count(if hit { "eng.tube-script.hit" } else { "eng.tube-script.MISSED-configuration" });
+        run.cnt(if hit { "eng.tube-script.hit" } else { "eng.tube-script.MISSED-configuration" });
         run.el(0, &k0, &k1, false);
         if !run.dead { run.query(0); }
     }
@@ -1633,10 +1663,22 @@ mod $name {
 }
 } }
 
-engine_mod!(engine, i64, "Z", |x: i64| x, |x: &i64| BigInt::from(*x));
-engine_mod!(engine_q, Ratio<i64>, "Q", |x: i64| Ratio::from(x), |_x: &Ratio<i64>| BigInt::from(0));
-engine_mod!(engine_f2, FF2, "F2", |x: i64| FF2::from(x), |_x: &FF2| BigInt::from(0));
-engine_mod!(engine_f3, FF<3>, "F3", |x: i64| FF::<3>::new(x as i32), |_x: &FF<3>| BigInt::from(0));
+engine_mod!(engine, i64, "Z", |x: i64| x, |x: &i64| BigInt::from(*x), true,
+    |s: &mut Sink, r: &mut Rng, n: &str, l: &Link, ht: &(Rg, Rg), red: bool, p: &Plan|
+        super::engine_zb::script(s, r, n, l, (BigInt::from(ht.0), BigInt::from(ht.1)), red, p));
+engine_mod!(engine_q, Ratio<i64>, "Q", |x: i64| Ratio::from(x), |_x: &Ratio<i64>| BigInt::from(0), true,
+    |s: &mut Sink, r: &mut Rng, n: &str, l: &Link, ht: &(Rg, Rg), red: bool, p: &Plan| {
+        let big = |x: &Ratio<i64>| Ratio::new(BigInt::from(*x.numer()), BigInt::from(*x.denom()));
+        super::engine_qb::script(s, r, n, l, (big(&ht.0), big(&ht.1)), red, p) });
+engine_mod!(engine_f2, FF2, "F2", |x: i64| FF2::from(x), |_x: &FF2| BigInt::from(0), false,
+    |_s: &mut Sink, _r: &mut Rng, _n: &str, _l: &Link, _ht: &(Rg, Rg), _red: bool, _p: &Plan| ());
+engine_mod!(engine_f3, FF<3>, "F3", |x: i64| FF::<3>::new(x as i32), |_x: &FF<3>| BigInt::from(0), false,
+    |_s: &mut Sink, _r: &mut Rng, _n: &str, _l: &Link, _ht: &(Rg, Rg), _red: bool, _p: &Plan| ());
+// arbitrary precision: the scripts of ℤ and ℚ are repeated here when the fixed-width run overflows
+engine_mod!(engine_zb, BigInt, "Z", |x: i64| BigInt::from(x), |x: &BigInt| x.clone(), false,
+    |_s: &mut Sink, _r: &mut Rng, _n: &str, _l: &Link, _ht: &(Rg, Rg), _red: bool, _p: &Plan| ());
+engine_mod!(engine_qb, Ratio<BigInt>, "Q", |x: i64| Ratio::from(BigInt::from(x)), |_x: &Ratio<BigInt>| BigInt::from(0), false,
+    |_s: &mut Sink, _r: &mut Rng, _n: &str, _l: &Link, _ht: &(Rg, Rg), _red: bool, _p: &Plan| ());
 
 struct Case { name: String, link: Link }
 
